@@ -26,7 +26,7 @@ MIN_NONTRIVIAL = {'quick': 600, 'thorough': 20000}
 TIME_CAP = {'quick': 300, 'thorough': 3600}
 REQUIRED_CLASSES = (
     ['type-' + M.type_kw(dt, sfx) for dt, sfx in M.TYPES] +
-    ['scalar-bool', 'scalar-int', 'scalar-float', 'scalar-str', 'value-none',
+    ['edge:table-cells', 'edge:table-cell-special-characters', 'scalar-bool', 'scalar-int', 'scalar-float', 'scalar-str', 'value-none',
      'int-negative', 'int-plus-sign', 'float-form-int', 'float-form-dec', 'float-form-sci', 'float-negative',
      'str-bare', 'str-single-quoted', 'str-double-quoted', 'str-block', 'str-with-blank', 'str-with-hash',
      'str-escaped-quote',
@@ -164,8 +164,11 @@ def cases(rng, tier, shard, nshards, ctx):
         for name, tree, documented in doc_examples():     # the real parser on the documented examples
             yield dict(tree=tree, r1=1, r2=2, trig={}, plain=True, doc=name)
             yield dict(tree=tree, r1=rng.randrange(1 << 30), r2=rng.randrange(1 << 30), trig={}, doc=name)
-    for _ in range(n):
+    from vt.props import dip_edge
+    for i in range(n):
         yield gen_case(rng)
+        if i % 8 == 0:
+            yield dip_edge.gen_c13(rng)
 
 
 def gen_case(rng):
@@ -356,6 +359,12 @@ def residual(exp, obs, devs):
 # ---------------------------------------------------------------------------------------------- oracle
 
 def run_case(case, ctx):
+    if case.get('edge'):
+        from vt.props import dip_edge
+        out = dip_edge.run_c13(case, ctx)
+        if ctx.get('hyg') is not None and ctx['hyg'].check_restore():
+            out['monitors']['table_leaks_restored'] = 1
+        return out
     tree = case['tree']
     exp = M.expected(tree)
     trig = case.get('trig') or {}
